@@ -352,9 +352,15 @@ func RunConc(env *Env, prefix, in, out string) error {
 					quota, _, _ := env.GetAccount(supi(u), 1)
 					qi, _ := strconv.ParseInt(quota, 10, 64)
 					recs := map[string]any{}
+					memRecs := []any{}
 					for _, r := range ue.Records {
 						pr := projRecord(r)
 						ref := pr["ref"].(string)
+						ml := []int64{}
+						for _, cont := range pr["conts"].([]any) {
+							ml = append(ml, cont.([]int64)[0])
+						}
+						memRecs = append(memRecs, map[string]any{"ref": ref, "lsns": ml})
 						var l []int64
 						if old, ok := recs[ref].([]int64); ok {
 							l = old
@@ -367,7 +373,36 @@ func RunConc(env *Env, prefix, in, out string) error {
 						}
 						recs[ref] = l
 					}
-					e = map[string]any{"known": true, "quota": clamp31(qi), "reserved": clamp31(ue.ReservedQuota[1]), "lsns": recs}
+					// the subscriber's CDR file as the last operation left it, read by the independent TLV walker
+					fs := FileSummary("/tmp/" + supi(u) + ".cdr")
+					fileRecs := []any{}
+					fileOk := true
+					if ex, _ := fs["exists"].(bool); ex {
+						if p, _ := fs["parsed"].(bool); !p {
+							fileOk = false
+						}
+						if c, _ := fs["complete"].(bool); !c {
+							fileOk = false
+						}
+						if rl, ok := fs["recs"].([]any); ok {
+							for _, x := range rl {
+								m := x.(map[string]any)
+								if tv, _ := m["tlvOk"].(bool); !tv {
+									fileOk = false
+									continue
+								}
+								fl := []int64{}
+								if cs, ok := m["conts"].([]any); ok {
+									for _, cont := range cs {
+										fl = append(fl, cont.([]int64)[0])
+									}
+								}
+								fileRecs = append(fileRecs, map[string]any{"ref": m["ref"], "lsns": fl})
+							}
+						}
+					}
+					e = map[string]any{"known": true, "quota": clamp31(qi), "reserved": clamp31(ue.ReservedQuota[1]), "lsns": recs,
+						"memRecs": memRecs, "fileRecs": fileRecs, "fileOk": fileOk}
 				}
 				q[u] = e
 			}
